@@ -139,7 +139,7 @@ class Gen:
                 vals = [d_str(v) for v in r.sample(["a", "b", "ab", "1"], r.randint(1, 3))]
             else:
                 vals = [d_int(r.choice([2, 3])), d_str(r.choice(["a", "2"]))]
-            return {"k": "lit", "vals": vals}
+            return {"k": "lit", "vals": vals, "mem": []}
         if c < 0.70:
             return self.gen_enum()
         if c < 0.76:
@@ -160,7 +160,7 @@ class Gen:
         if c < 0.75:
             return {"k": "annot", "t": P("str"), "cons": self.gen_cons("str")}
         if c < 0.9:
-            return {"k": "lit", "vals": [d_str(v) for v in r.sample(["a", "b", "ab"], 2)]}
+            return {"k": "lit", "vals": [d_str(v) for v in r.sample(["a", "b", "ab"], 2)], "mem": []}
         return {"k": "newtype", "name": self.fresh("N"), "sup": P("str")}
 
     def gen_type(self, depth: int, hashable=False) -> dict:
